@@ -41,6 +41,9 @@ type Config struct {
 	// StorageFn (optional): the op.Storage value handed to the provider, built by the caller around the reference store - for
 	// capability sets that refstore.Caps does not span (C15: CanGetPrivateClaimsFromRequest). nil: Store.With(Caps).
 	StorageFn func(*refstore.Store) op.Storage
+	// WrapStorage (deep3-C04): the provider is built on WrapStorage(storage) - a wrapper that gates / alters single storage calls
+	// (concurrent schedules, a strict DeleteAuthRequest); nil = the reference storage itself
+	WrapStorage func(op.Storage) op.Storage
 }
 
 type Bed struct {
@@ -72,6 +75,9 @@ func New(cfg Config) (*Bed, error) {
 	b.Storage = st.With(cfg.Caps)
 	if cfg.StorageFn != nil {
 		b.Storage = cfg.StorageFn(st)
+	}
+	if cfg.WrapStorage != nil {
+		b.Storage = cfg.WrapStorage(b.Storage)
 	}
 	uc := op.UserCodeBase20
 	if cfg.UserCode != nil {
